@@ -45,10 +45,51 @@ Definition c04_step (s : state) (r : req) (obs : resp) : N :=
         else 4%N
   end.
 
+(* compose: destination conditions and a generation match per source.  Gated when the request is
+   otherwise well formed (body parses, destination path parses, at most gcsMaxComposeSources sources,
+   every source exists), so that its status is decided by the preconditions alone.  A source
+   generation of 0 (or none) is "no condition". *)
+Definition src_gen_ok (s : state) (b : str) (sc : str * cparam) : bool :=
+  match find_obj s b (fst sc) with
+  | None => false
+  | Some o => match resolve s (snd sc) with
+              | VNum z => Z.eqb z 0 || Z.eqb z (o_gen o)
+              | _ => true
+              end
+  end.
+
+Definition c04_compose_step (s : state) (r : req) (obs : resp) : N :=
+  match r with
+  | RCompose b dst bad srcs dm cp =>
+      match split (dst ++ s_compose) s_compose with
+      | [dstname; _] =>
+          if bad || (Z.of_nat (length srcs) >? Emu.Gen.Consts.gcsMaxComposeSources)
+             || negb (forallb (fun sc => match find_obj s b (fst sc) with Some _ => true | None => false end) srcs)
+          then 0%N
+          else
+            let '(p1, p2, p3, p4) := resolved s cp in
+            let st := r_status obs in
+            if any_bad p1 p2 p3 p4 then (if Z.eqb st 400 then 0 else 1)%N
+            else
+              let og := obj_gens (find_obj s b dstname) in
+              let srcs_ok := forallb (src_gen_ok s b) srcs in
+              if holds p1 p2 p3 p4 og && srcs_ok then (if Z.eqb st 200 then 0 else 3)%N
+              else if Z.eqb st 200 then 2%N
+              else if Z.eqb st 412 then
+                (if negb srcs_ok || match og with None => true | _ => false end
+                    || negb (cond_holds KGenMatch p1 og) || negb (cond_holds KMetaMatch p3 og) then 0 else 4)%N
+              else if Z.eqb st 304 then
+                (if negb (cond_holds KGenNotMatch p2 og) || negb (cond_holds KMetaNotMatch p4 og) then 0 else 4)%N
+              else 4%N
+      | _ => 0%N
+      end
+  | _ => 0%N
+  end.
+
 Fixpoint c04_run (s : state) (i : N) (rs : list req) (obs : list resp) : list (N * N) :=
   match rs, obs with
   | r :: rs', o :: obs' =>
-      let code := c04_step s r o in
+      let code := match r with RCompose _ _ _ _ _ _ => c04_compose_step s r o | _ => c04_step s r o end in
       let s' := fst (handle s r) in
       if N.eqb code 0 then c04_run s' (i + 1)%N rs' obs' else (i, code) :: c04_run s' (i + 1)%N rs' obs'
   | _, _ => []
